@@ -29,6 +29,8 @@ def valuation(symvals):
     for v in range(len(c.names)):
         if c.kind[v] == 'sym':
             if v not in symvals:
+                if c.info[v].get('aux'):
+                    val[v] = mpf(0); continue
                 raise KeyError(f"no value for symbol {c.names[v]}")
             val[v] = mpf(symvals[v]) if not isinstance(symvals[v], mpf) else symvals[v]
         else:
